@@ -319,6 +319,18 @@ def run(ctx):
                      (["hash", "typeddata"], json.dumps(TYPED).encode()), (["sign", "--mnemonic", phrase, "message"], b"abc")):
         runs.append(("cli/non-regular-input-path(must succeed)", dict(args=sub + ["/dev/stdin"], stdin=inp, env=None, timeout=60)))
     cli("cli/missing-file", ["hash", "message", os.path.join(tmp, "does-not-exist")])
+    # file names are byte strings on this platform: a name that is not UTF-8 whose read fails (missing, a directory, a path
+    # through a file) is an ordinary error like any other; one that reads fine is read
+    tmpb = os.fsencode(tmp)
+    os.makedirs(os.path.join(tmpb, b"dir-\xff\xfe"), exist_ok=True)
+    with open(os.path.join(tmpb, b"caf\xe9.txt"), "wb") as fh:
+        fh.write(b"abc")
+    for sub in (["hash", "data"], ["hash", "message"], ["hash", "typeddata"], ["hash", "transaction"], ["hex", "encode"], ["hex", "decode"],
+                ["sign", "--mnemonic", phrase, "message"], ["sign", "--mnemonic", phrase, "typeddata"], ["sign", "--mnemonic", phrase, "transaction"]):
+        for nm in (b"missing-\xff", b"dir-\xff\xfe", b"caf\xe9.txt/x", b"\xc3\x28/\xa0\xa1"):
+            cli("cli/non-utf8-path-that-cannot-be-read", sub + [os.path.join(tmpb, nm)])
+    for sub in (["hash", "data"], ["hash", "message"], ["hex", "encode"], ["sign", "--mnemonic", phrase, "message"]):
+        cli("cli/non-utf8-path(must succeed)", sub + [os.path.join(tmpb, b"caf\xe9.txt")])
     cli("cli/bad-mnemonic", ["address", "--mnemonic", "abandon"])
     cli("cli/no-args", [])
     builds = [("debug", False)] + ([("release", True)] if thorough else [])
@@ -334,6 +346,5 @@ def run(ctx):
                 ctx.violation("cli-well-formed-input-refused", dict(op="hdwallet " + " ".join(short(a, 80) for a in rn["args"]), build=bname), "exit 0", str(r)[:300])
             elif r.cls == "error" and not r.stderr:
                 ctx.violation("cli-error-without-message", dict(op="hdwallet " + " ".join(short(a, 80) for a in rn["args"]), build=bname), "a message on stderr", "empty stderr")
-    for f in os.listdir(tmp):
-        os.remove(os.path.join(tmp, f))
-    os.rmdir(tmp)
+    import shutil
+    shutil.rmtree(tmp, ignore_errors=True)
